@@ -305,11 +305,88 @@ class PositionalToKeyword(ast.NodeTransformer):
         return node
 
 
+def collect_param_names(root: Path) -> dict[str, set[str]]:
+    """function / method name -> parameter names over all its definitions (dunder methods excluded)"""
+    out: dict[str, set[str]] = {}
+    for f in root.rglob("*.py"):
+        for n in ast.walk(ast.parse(f.read_text())):
+            if isinstance(n, (ast.FunctionDef, ast.AsyncFunctionDef)) and not (n.name.startswith("__") and n.name.endswith("__")):
+                a = n.args
+                out.setdefault(n.name, set()).update(x.arg for x in a.posonlyargs + a.args + a.kwonlyargs if x.arg not in ("self", "cls"))
+    return out
+
+
+class ParamRenamer(ast.NodeTransformer):
+    """renames every parameter p (not self / cls, not of dunder methods) to p_p in the signature, the body and in
+    keyword arguments of calls to repository functions of that name"""
+
+    def __init__(self, table: dict[str, set[str]]) -> None:
+        self.table = table
+        self.scopes: list[set[str]] = []
+
+    def visit_FunctionDef(self, node):
+        dunder = node.name.startswith("__") and node.name.endswith("__")
+        # decorators and defaults belong to the enclosing scope
+        node.decorator_list = [self.visit(d) for d in node.decorator_list]
+        a = node.args
+        a.defaults = [self.visit(d) for d in a.defaults]
+        a.kw_defaults = [self.visit(d) if d is not None else None for d in a.kw_defaults]
+        mine: set[str] = set()
+        if not dunder:
+            for x in a.posonlyargs + a.args + a.kwonlyargs:
+                if x.arg not in ("self", "cls"):
+                    mine.add(x.arg)
+                    x.arg = x.arg + "_p"
+        # names assigned as global / nonlocal keep their meaning
+        self.scopes.append(mine)
+        node.body = [self.visit(s) for s in node.body]
+        self.scopes.pop()
+        return node
+
+    visit_AsyncFunctionDef = visit_FunctionDef
+
+    def visit_Lambda(self, node):
+        shadow = {x.arg for x in node.args.args + node.args.kwonlyargs}
+        self.scopes.append(set())  # lambda parameters are left alone and shadow outer ones
+        saved = [s - shadow for s in self.scopes[:-1]]
+        old, self.scopes = self.scopes, saved + [set()]
+        node.body = self.visit(node.body)
+        self.scopes = old
+        self.scopes.pop()
+        return node
+
+    def visit_ClassDef(self, node):
+        old, self.scopes = self.scopes, []
+        self.generic_visit(node)
+        self.scopes = old
+        return node
+
+    def visit_Name(self, node):
+        for sc in reversed(self.scopes):
+            if node.id in sc:
+                node.id = node.id + "_p"
+                break
+        return node
+
+    def visit_Call(self, node):
+        self.generic_visit(node)
+        nm = node.func.attr if isinstance(node.func, ast.Attribute) else node.func.id if isinstance(node.func, ast.Name) else None
+        if nm in self.table:
+            for k in node.keywords:
+                if k.arg and k.arg in self.table[nm]:
+                    k.arg = k.arg + "_p"
+        return node
+
+
 def rewrite_tree(root: Path, rename: bool, mode: str = "") -> int:
     n = 0
     sigs = collect_signatures(root) if mode in ("kw", "pos") else {}
+    ptable = collect_param_names(root) if mode == "params" else {}
     for f in list(root.rglob("*.py")):
         tree = ast.parse(f.read_text())
+        if mode == "params":
+            tree = ParamRenamer(ptable).visit(tree)
+            ast.fix_missing_locations(tree)
         if mode == "kw":
             tree = PositionalToKeyword(sigs).visit(tree)
             ast.fix_missing_locations(tree)
